@@ -203,6 +203,60 @@ def rRunBad (g : Geom) : RSt K → List (ROp K) → RSt K × List RObs
     let rs := rRunBad g r.1 ops
     (rs.1, r.2 :: rs.2)
 
+/-! ### which grid the image is labelled with
+
+hcipy Fields carry a grid; `a + b` of two Fields keeps the grid of the left operand, `0 + b` that of `b`.
+`integrate` relabels the (binned) power with the detector grid before accumulating — `subsample_field(…,
+new_grid=self.detector_grid)` when binning, `Field(power, self.detector_grid)` otherwise (D170) — and an
+empty read-out builds its zero image on the detector grid.  `tStepOld` is the unrepaired subsampling-1 path of
+`NoiselessDetector`, which accumulated the power with whatever grid it came with (plain arrays are wrapped on
+the input grid first). -/
+
+inductive GTag where
+  | detector | input | foreign
+deriving DecidableEq, Repr
+
+/-- what the caller hands to `integrate`: a Field on the input grid, a Field on some other grid, a plain array -/
+inductive PTag where
+  | onInput | onForeign | plain
+deriving DecidableEq, Repr
+
+/-- grid of `acc + img` -/
+def tagAdd : Option GTag → GTag → GTag
+  | none, t => t
+  | some a, _ => a
+
+structure TSt where
+  acc : Option GTag := none
+
+inductive TOp where
+  | integrate (p : PTag)
+  | readOut
+
+/-- the grid the power carries when it reaches the accumulation, repaired code -/
+def relabel (_ : PTag) : GTag := .detector
+
+/-- … and on the unrepaired subsampling-1 path -/
+def relabelOld : PTag → GTag
+  | .onInput => .input
+  | .onForeign => .foreign
+  | .plain => .input
+
+def tStepWith (lab : PTag → GTag) (st : TSt) : TOp → TSt × Option GTag
+  | .integrate p => ({ acc := some (tagAdd st.acc (lab p)) }, none)
+  | .readOut => ({ acc := none }, some (st.acc.getD .detector))
+
+def tStep : TSt → TOp → TSt × Option GTag := tStepWith relabel
+def tStepOld : TSt → TOp → TSt × Option GTag := tStepWith relabelOld
+
+/-- the grid tags of the images a history returns -/
+def tRunWith (lab : PTag → GTag) : TSt → List TOp → List GTag
+  | _, [] => []
+  | st, op :: ops =>
+    match (tStepWith lab st op).2 with
+    | some t => t :: tRunWith lab (tStepWith lab st op).1 ops
+    | none => tRunWith lab (tStepWith lab st op).1 ops
+
 /-! ### the noisy detector with its parameters as mutable state (setters between operations)
 
 `flat_field`, `dark_current_rate`, `read_noise` and `include_photon_noise` are public attributes that
